@@ -230,8 +230,9 @@ def run_kani(work, ws, package, hs, jobs, mem_gb, extra=None, tag="k"):
         res[h["full"]] = r
     compile_error = ("error: could not compile" in logtxt) or ("Failed to execute cargo" in logtxt)
     unsupported = re.findall(r"(?:unsupported|not currently supported)[^\n]*", logtxt)
+    errs = re.findall(r"^error[^\n]*\n(?:[^\n]*\n){0,8}", logtxt, flags=re.M)
     return res, dict(rc=rc, timed_out=to, wall=wall, log=log, compile_error=compile_error,
-                     unsupported=unsupported[:5], log_tail=logtxt[-4000:])
+                     unsupported=unsupported[:5], log_tail=("".join(errs)[:3000] or logtxt[-3000:]))
 
 
 def kani_trace_values(work, ws, package, h, mem_gb=24):
